@@ -292,6 +292,144 @@ def check_structure_ops(ctx, p, rng, origin):
         ctx.violation('squeeze/byaxis/insert/append', origin, 'raises:' + type(e).__name__, message=str(e)[:200])
 
 
+def rand_part(rng, nd):
+    """Random uniform or non-uniform partition with per-axis distinct limits (so that mixed-up axes are visible)."""
+    if rng.integers(2):
+        mn = rng.uniform(-5, 5, size=nd)
+        mx = mn + rng.uniform(0.3, 3, size=nd)
+        shape = tuple(int(k) for k in rng.integers(1, 5, size=nd))
+        nob = [(bool(rng.integers(2)), bool(rng.integers(2))) if k > 1 else (False, False) for k in shape]
+        return odl.uniform_partition(mn, mx, shape, nodes_on_bdry=nob_arg(nob, nd))
+    shape = tuple(int(k) for k in rng.integers(2, 5, size=nd))
+    off = rng.uniform(-5, 5, size=nd)
+    cvs = [np.sort(rng.uniform(0, 2, size=k)) + 0.05 * np.arange(k) + o for k, o in zip(shape, off)]
+    return odl.nonuniform_partition(*cvs)
+
+
+def check_multipart(ctx, p, rng, origin):
+    """insert / append of several parts of mixed dimension (1-3 each): axis order, limits, grid and cells of the
+    result are the concatenation of the parts' in order."""
+    ctx.ev('slice-model')
+    nparts = int(rng.integers(2, 4))
+    dims = [int(rng.integers(1, 4)) for _ in range(nparts)]
+    cfg = '%s;parts=%s' % (origin, 'all-1d' if all(d == 1 for d in dims) else ('multi-d-not-last' if any(d > 1 for d in dims[:-1]) else 'multi-d-last'))
+    try:
+        parts = [rand_part(rng, d) for d in dims]
+    except Exception as e:
+        ctx.note_add('monitor-exception:rand_part:' + type(e).__name__)
+        return
+    nd = p.ndim
+    pos = int(rng.integers(-nd, nd + 1))
+    ipos = pos if pos >= 0 else nd + pos
+    for opname in ('insert', 'append'):
+        try:
+            if opname == 'insert':
+                r = p.insert(pos, *parts)
+                at = ipos
+            else:
+                r = p.append(*parts)
+                at = nd
+        except Exception as e:
+            ctx.violation(opname, cfg, 'raises:' + type(e).__name__, message=str(e)[:200], dims=dims, pos=pos)
+            continue
+        tiling(ctx, r, opname + '-multipart')
+
+        def cat(get):
+            mid = [v for q in parts for v in get(q)]
+            return list(get(p))[:at] + mid + list(get(p))[at:]
+        ok = r.ndim == nd + sum(dims)
+        ok = ok and all(np.array_equal(a, b) for a, b in zip(r.cell_boundary_vecs, cat(lambda q: q.cell_boundary_vecs)))
+        ok = ok and all(np.array_equal(a, b) for a, b in zip(r.grid.coord_vectors, cat(lambda q: q.grid.coord_vectors)))
+        ok = ok and np.array_equal(r.min_pt, np.array(cat(lambda q: q.min_pt))) and np.array_equal(r.max_pt, np.array(cat(lambda q: q.max_pt)))
+        ok = ok and r.shape == tuple(cat(lambda q: q.shape))
+        if not ok:
+            ctx.violation(opname, cfg, 'cells-differ', dims=dims, pos=pos)
+
+
+PART_PROPS = ('min_pt', 'max_pt', 'extent', 'cell_sides', 'cell_volume', 'cell_boundary_vecs', 'cell_sizes_vecs',
+              'boundary_cell_fractions', 'shape', 'nodes_on_bdry_byaxis', 'is_uniform_byaxis')
+GRID_PROPS = ('min_pt', 'max_pt', 'extent', 'stride', 'coord_vectors', 'shape', 'mid_pt')
+SET_PROPS = ('min_pt', 'max_pt', 'extent', 'mid_pt', 'volume')
+
+
+def _state(p):
+    st = {}
+    for obj, props, tag in ((p, PART_PROPS, 'partition.'), (p.grid, GRID_PROPS, 'grid.'), (p.set, SET_PROPS, 'set.')):
+        for name in props:
+            try:
+                v = getattr(obj, name)
+            except Exception as e:
+                v = 'raises:' + type(e).__name__
+            st[tag + name] = repr(np.array(v, dtype=object).tolist() if isinstance(v, tuple) else np.array(v).tolist())
+    return st
+
+
+def _arrays(v):
+    if isinstance(v, np.ndarray):
+        yield v
+    elif isinstance(v, (tuple, list)):
+        for u in v:
+            for a in _arrays(u):
+                yield a
+
+
+def check_private_state(ctx, p, rng, origin):
+    """What a partition reports must not depend on what was read before or on what a caller did with the arrays it was
+    handed: (a) reading every property twice gives the same answers, (b) a second partition over the same grid object
+    (length-1 axes get their cell side from the partition, not the grid) is not influenced by reads of the first,
+    (c) writing into a returned (writeable) array does not change any reported quantity."""
+    ctx.ev('private-state')
+    s0 = _state(p)
+    s1 = _state(p)
+    for k in s0:
+        if s0[k] != s1[k]:
+            ctx.violation('RectPartition', 'read-twice', 'state-changed-by-reading', prop=k)
+    # (b) two partitions sharing one grid object
+    try:
+        mn2 = p.min_pt - rng.uniform(0.5, 1.5, size=p.ndim)
+        mx2 = p.max_pt + rng.uniform(0.5, 1.5, size=p.ndim)
+        first, second = (odl.RectPartition(odl.IntervalProd(p.min_pt, p.max_pt), p.grid), odl.RectPartition(odl.IntervalProd(mn2, mx2), p.grid))
+        if rng.integers(2):
+            first, second = second, first
+        _state(first)
+        fresh = odl.RectPartition(second.set, odl.RectGrid(*[cv.copy() for cv in p.grid.coord_vectors]))
+        a, b = _state(second), _state(fresh)
+        for k in a:
+            if a[k] != b[k]:
+                ctx.violation('RectPartition', 'shared-grid;%s' % ('len1' if 1 in p.shape else 'len>=2'), 'state-depends-on-reads-of-another-partition', prop=k)
+                break
+        tiling(ctx, second, 'shared-grid')
+    except Exception as e:
+        ctx.violation('RectPartition', 'shared-grid', 'raises:' + type(e).__name__, message=str(e)[:200])
+    # (c) writes into returned arrays
+    q = odl.RectPartition(odl.IntervalProd(p.min_pt, p.max_pt), odl.RectGrid(*[cv.copy() for cv in p.grid.coord_vectors]))
+    base = _state(q)
+    for props, tag in ((PART_PROPS, 'partition.'), (GRID_PROPS, 'grid.'), (SET_PROPS, 'set.')):
+        for name in props:
+            obj = {'partition.': q, 'grid.': q.grid, 'set.': q.set}[tag]
+            try:
+                v = getattr(obj, name)
+            except Exception:
+                continue
+            wrote = False
+            for a in _arrays(v):
+                if a.flags.writeable and a.size:
+                    try:
+                        a[...] = a * 2 + 1
+                        wrote = True
+                    except Exception:
+                        pass
+            if not wrote:
+                continue
+            after = _state(q)
+            changed = [k for k in base if base[k] != after[k]]
+            if changed:
+                ctx.violation(tag + name, 'returned-array', 'write-through-to-internal-state', changed=changed[:4])
+                # restore a clean object for the remaining properties
+                q = odl.RectPartition(odl.IntervalProd(p.min_pt, p.max_pt), odl.RectGrid(*[cv.copy() for cv in p.grid.coord_vectors]))
+                base = _state(q)
+
+
 LIMITS = [('generic', lambda rng, nd: (rng.uniform(-3, 3, size=nd), rng.uniform(0.1, 4, size=nd))),
           ('negative', lambda rng, nd: (rng.uniform(-50, -40, size=nd), rng.uniform(0.5, 2, size=nd))),
           ('tiny', lambda rng, nd: (rng.uniform(-1e-6, 1e-6, size=nd), rng.uniform(1e-7, 1e-6, size=nd))),
@@ -352,6 +490,8 @@ def run_uniform(ctx, hook):
                         check_index(ctx, p, rng, 'uniform')
                         check_slicing(ctx, p, rng, 'uniform')
                         check_structure_ops(ctx, p, rng, 'uniform')
+                        check_multipart(ctx, p, rng, 'uniform')
+                        check_private_state(ctx, p, rng, 'uniform')
                         # parameter-subset equivalence (Appendix B: only axes with >= 2 points or no boundary node)
                         admissible = all(k >= 2 or not any(nb) for k, nb in zip(shape, nob_l))
                         if admissible:
@@ -435,6 +575,8 @@ def run_nonuniform(ctx, hook):
             check_index(ctx, q, rng, 'nonuniform')
             check_slicing(ctx, q, rng, 'nonuniform')
             check_structure_ops(ctx, q, rng, 'nonuniform')
+            check_multipart(ctx, q, rng, 'nonuniform')
+            check_private_state(ctx, q, rng, 'nonuniform')
 
 
 def run_ambient(ctx, hook):
